@@ -142,6 +142,15 @@ func (g *c02Gen) clientCall(id string) c02Msg {
 			return mk("bad-params", -32602, "sampling/createMessage", r.Choose(`{"messages":5}`, `[1,2]`, `"str"`, `17`, `{"messages":[{"role":"user","content":{"type":"nope"}}],"maxTokens":1}`))
 		}
 		return mk("bad-params", -32602, "elicitation/create", r.Choose(`{"message":["m"]}`, `[1,2]`, `"str"`, `17`, `{"message":5}`))
+	case x == 18:
+		// null where an object is expected, inside otherwise well-formed params: answered once (a result or an error,
+		// the statement does not say which), and the client survives it
+		if r.Bool() {
+			return mk("null-elements", c02AnyOutcome, "sampling/createMessage", r.Choose(`{"messages":[null],"maxTokens":1}`, `{"messages":[{"role":"user","content":null}],"maxTokens":1}`,
+				`{"messages":[null,{"role":"user","content":{"type":"text","text":"x"}}],"maxTokens":1}`, `{"messages":[{"role":"user","content":[null]}],"maxTokens":1}`, `{"messages":null,"maxTokens":1}`))
+		}
+		return mk("null-elements", c02AnyOutcome, "elicitation/create", r.Choose(`{"message":"m","requestedSchema":null}`, `{"message":"m","requestedSchema":{"type":"object","properties":{"a":null}}}`,
+			`{"mode":"url","message":"m","url":null,"elicitationId":null}`, `{"mode":null,"message":"m"}`))
 	case x < 19:
 		return mk("missing-params", c02ReqOrParams, r.Choose("sampling/createMessage", "elicitation/create", "elicitation/create"), r.Choose("-", "null"))
 	default:
